@@ -312,20 +312,52 @@ Fixpoint split_go (s : bytes) (m : mode) (cur : bytes) : option (list segment) :
 Definition split (s : bytes) : option (list segment) := split_go s MText [].
 
 (* ------------------------------------------------------------------------------------------------
-   evaluator.cpp:format_interpolated_value for integer and string values *)
-Inductive value := VInt (z : Z) | VStr (s : bytes).
-Definition value_int (v : value) : Z := match v with VInt z => z | VStr _ => 0%Z end.
+   evaluator.cpp:format_interpolated_value for integer, string and floating-point values.
+   A double is given exactly: (-1)^neg * m * 2^e (m < 2^53 for a finite double; no NaN / infinity). *)
+Inductive value := VInt (z : Z) | VStr (s : bytes) | VFlt (neg : bool) (m : N) (e : Z).
+Definition value_int (v : value) : Z := match v with VInt z => z | _ => 0%Z end.
 
 (* std::setfill(fill) << std::setw(w) << body : right-aligned *)
 Definition ipad (zero : bool) (w : nat) (body : bytes) : bytes :=
   repeat (if zero then "0" else " ") (w - List.length body) ++ body.
+
+(* ss << std::fixed << std::setprecision(p) << double  (= printf "%.pf", also std::to_string with p = 6):
+   the exact value m * 2^e times 10^p, rounded to the nearest integer, ties to the even one (glibc rounds the
+   exact decimal expansion in the current rounding mode) ... *)
+Definition fix_q (m : N) (e : Z) (p : nat) : N :=
+  let t := (m * 10 ^ N.of_nat p)%N in
+  match e with
+  | Z0 => t
+  | Zpos k => (t * 2 ^ Npos k)%N
+  | Zneg k =>
+      let d := (2 ^ Npos k)%N in
+      let q := (t / d)%N in
+      let r := (t mod d)%N in
+      if (2 * r <? d)%N then q
+      else if (d <? 2 * r)%N then (q + 1)%N
+      else if N.even q then q else (q + 1)%N
+  end.
+(* ... printed as integer part, and for p > 0 a point and exactly p fraction digits *)
+Fixpoint frac_digits (p : nat) (n : N) (acc : bytes) : bytes :=
+  match p with
+  | O => acc
+  | S p' => frac_digits p' (n / 10)%N (digit_char false (n mod 10)%N :: acc)
+  end.
+Definition fixed (neg : bool) (m : N) (e : Z) (p : nat) : bytes :=
+  let q := fix_q m e p in
+  (if neg then ["-"] else []) ++ udec (q / 10 ^ N.of_nat p)%N
+  ++ match p with O => [] | _ => "." :: frac_digits p (q mod 10 ^ N.of_nat p)%N [] end.
+
+(* ".digits" as scanned by parse_prec -> the precision *)
+Definition prec_of (pr : bytes) : option nat :=
+  match pr with [] => None | _ :: d => Some (nat_of_digits d) end.
 
 (* the part after "if (format_spec.empty())" *)
 Definition format_spec (v : value) (spec : bytes) : bytes :=
   let (zero, r0) := match spec with c :: r => if ceq c "0" then (true, r) else (false, spec) | [] => (false, []) end in
   let (wd, r1) := span is_digit r0 in
   let w := nat_of_digits wd in
-  let (_, r2) := parse_prec r1 in
+  let (pr, r2) := parse_prec r1 in
   let tc := match r2 with c :: _ => c | [] => "000" end in
   if ceq tc "x" then ipad zero w (render_base false 16 (u64 (value_int v)))
   else if ceq tc "X" then ipad zero w (render_base true 16 (u64 (value_int v)))
@@ -338,12 +370,42 @@ Definition format_spec (v : value) (spec : bytes) : bytes :=
               (fix 4cd822e, former finding #27); without the 0 flag: right-aligned with spaces *)
            if zero then pad_num false true w (sign_of z) (mag_of z) else ipad false w (dec z)
        | VStr s => s
+       | VFlt ng m e =>
+           (* std::fixed only with a precision; setfill('0') without std::internal: the fill precedes the sign *)
+           match prec_of pr with
+           | Some p => ipad zero w (fixed ng m e p)
+           | None => []              (* default (%g-like) iostream formatting: outside the model, see spec_supported *)
+           end
        end.
 
 Definition format_value (v : value) (spec : bytes) : bytes :=
   match spec with
-  | [] => match v with VInt z => dec z | VStr s => s end
+  | [] => match v with
+          | VInt z => dec z
+          | VStr s => s
+          | VFlt ng m e => fixed ng m e 6              (* std::to_string(double) = "%f" *)
+          end
   | _ => format_spec v spec
+  end.
+
+(* which (value, spec) pairs the model renders: everything for integers and strings; for a double the empty spec
+   and [0][width].precision[f...] ; a double through x X b or without a precision is outside the model *)
+Definition spec_supported (v : value) (spec : bytes) : bool :=
+  match v with
+  | VFlt _ _ _ =>
+      match spec with
+      | [] => true
+      | _ =>
+        let r0 := match spec with c :: r => if ceq c "0" then r else spec | [] => [] end in
+        let (_, r1) := span is_digit r0 in
+        let (pr, r2) := parse_prec r1 in
+        let tc := match r2 with c :: _ => c | [] => "000" end in
+        match prec_of pr with
+        | Some _ => negb (ceq tc "x" || ceq tc "X" || ceq tc "b")
+        | None => false
+        end
+      end
+  | _ => true
   end.
 
 Definition env := list (bytes * value).
@@ -369,8 +431,11 @@ Fixpoint eval_segs (e : env) (l : list segment) : res :=
   | SExpr ex sp :: r =>
       match lookup e ex with
       | None => inr EUnbound
-      | Some v => rbind (eval_segs e r)
-                    (fun o => inl (format_value v (match sp with Some f => f | None => [] end) ++ o))
+      | Some v =>
+          if spec_supported v (match sp with Some f => f | None => [] end) then
+            rbind (eval_segs e r)
+                  (fun o => inl (format_value v (match sp with Some f => f | None => [] end) ++ o))
+          else inr EUnsupported
       end
   end.
 
